@@ -226,7 +226,10 @@ def main():
         elif rc != 0 and not vio:
             txt = open(logpath, errors="replace").read()
             m = re.search(r"^(panic: .*|fatal error: .*)$", txt, re.M)
-            if m and crash_forbidden and crash_in_repo_code(txt):
+            if m and "test timed out" in m.group(1):
+                # the go test deadline: a budget, never a verdict
+                infra.append(f"{name}: go test deadline reached (log {logpath})")
+            elif m and crash_forbidden and crash_in_repo_code(txt):
                 keep = os.path.join(found_dir, f"{pid}-{name}-seed{seed}-crash.log")
                 shutil.copyfile(logpath, keep)
                 violations.append((keep, "process crashed in repository code: " + m.group(1)[:300], name))
